@@ -586,6 +586,26 @@ ExecS(P, s, env, st0, ctx) ==
             IN IF o.buf # <<>> THEN R(env, Emit1(Store(st, oc, [o EXCEPT !.buf = Tail(@)]), <<"c", s.id, Head(o.buf)>>))
                ELSE IF o.closed THEN R(env, Emit1(st, <<"c", s.id, 0>>))
                ELSE R(env, Emit1(st, <<"c", s.id, "empty">>))
+      [] s.k = "chsel" ->     \* okv := false; select { case DST[, okv] = <-ch: [print "got"] [default: print "empty"] }; print DST[, okv]
+                              \* DST (s.form) is a variable, t.a, arr[1], *p or m[2]: the operands on the left are evaluated when the
+                              \* case is selected, then the received value (the zero value from a closed channel) is assigned
+            LET oc == st.cells[env[s.s]].ch
+                o  == st.cells[oc]
+                isM == s.form = "map"
+                dc == CASE s.form = "var" -> env[s.x]
+                        [] s.form = "fld" -> Env0.ta
+                        [] s.form = "arr" -> Env0.a1
+                        [] s.form = "ptr" -> st.cells[env[s.x]].ptr
+                        [] OTHER -> 0
+                put(s1, v) == IF isM THEN MapPut(s1, s1.cells[env[s.x]], 2, v) ELSE Store(s1, dc, v)
+                get(s1)    == IF isM THEN MapGet(s1, s1.cells[env[s.x]], 2) ELSE s1.cells[dc]
+                fin(s1, okv) == Emit1(s1, IF s.ok2 THEN <<"c", s.id, get(s1), okv>> ELSE <<"c", s.id, get(s1)>>)
+                got(s1, v, okv) == IF isM /\ s1.cells[env[s.x]].mp = 0 THEN Panic(s1, "fault")
+                                   ELSE fin(IF s.hb THEN Emit1(put(s1, v), <<"c", s.id, "got">>) ELSE put(s1, v), okv)
+            IN IF o.buf # <<>> THEN R(env, got(Store(st, oc, [o EXCEPT !.buf = Tail(@)]), Head(o.buf), "true"))
+               ELSE IF o.closed THEN R(env, got(st, 0, "false"))
+               ELSE IF s.hd THEN R(env, fin(Emit1(st, <<"c", s.id, "empty">>), "false"))
+               ELSE R(env, [st EXCEPT !.status = "fuel"])
       [] s.k = "chclose" ->   \* close(ch) : closing twice faults
             LET oc == st.cells[env[s.s]].ch
                 o  == st.cells[oc]
